@@ -27,7 +27,7 @@ from common import Evidence, Verdicts, run_tlc, stage_spec, MachineryError
 
 PROP = "C16"
 CLIENT = "c1"
-KEYS = ["a", "b", "d/e/f", "zz"]
+KEYS = ["a", "b", "d/e/f", "zz", "a/sub"]
 VALUE_SRC = {1: "42", 2: '"hello world"', 3: '[1 2 [3 "x"] "yy" 4.5]', 4: ':{[1 2] ["k" "v"]}', 5: "2.5", 6: ":sym", 7: '[0cx "s" :sym 1.5 [] ""]',
              8: '""', 9: "[]"}
 
